@@ -3,12 +3,15 @@ package fsub
 import (
 	"fmt"
 	"math/rand/v2"
+	"os"
 	"runtime"
 	"sort"
 	"strings"
 	"sync"
 	"testing"
+	"time"
 
+	"github.com/aperturerobotics/bifrost/crypto"
 	"github.com/aperturerobotics/bifrost/pubsub"
 	"github.com/aperturerobotics/bifrost/util/verifhook"
 
@@ -22,6 +25,10 @@ type subSpec struct {
 	Ch       string
 	Handlers int
 	Round    int
+	// Key is the private key the subscription is made with (and publishes
+	// with): 0 = the node's own link identity, k >= 1 = the k-th foreign
+	// identity of the run (an identity no node of the mesh uses on its links).
+	Key int
 }
 
 type evKind int
@@ -57,38 +64,101 @@ type pubSpec struct {
 	Origin int
 	Ch     string
 	Direct bool
+	// Key is the signing key of a Direct publish (see subSpec.Key).
+	Key int
 }
+
+// gateSpec closes a gate on one direction of an edge for the publishes of a
+// round: "hold" = the reader is handed nothing (a slow link: copies stay in
+// flight, the sender is not affected), "stall" = writes block (a transport
+// that does not drain: back-pressure builds up in the sending node).
+type gateSpec struct {
+	Edge int // index into cfg.G.edges
+	Dir  int // 0: edges[Edge][0] -> [1], 1: the other direction
+	Mode string
+}
+
+func (g gateSpec) String() string { return fmt.Sprintf("%s#%d/%d", g.Mode, g.Edge, g.Dir) }
 
 type roundSpec struct {
 	Events     []event
 	Pubs       []pubSpec
 	Concurrent bool
+	// Gates are closed before the publishes of the round are issued and opened
+	// (in this order) once the mesh has come to rest against them.
+	Gates []gateSpec
+	// QuiesceBetween: wait for exact quiescence after each opened gate (only
+	// possible when no publisher is blocked by back-pressure).
+	QuiesceBetween bool
 }
 
 type c28cfg struct {
-	Idx    int
-	Kind   string // "mesh", "burst", "relink"
-	G      graph
-	Chans  []string
-	Subs   []subSpec
-	Rounds []roundSpec
-	Yield  bool
+	Idx     int
+	Kind    string // "mesh", "burst", "relink", "delay", "stall"
+	KeyMode string // "node", "foreign", "mixed"
+	G       graph
+	Chans   []string
+	Subs    []subSpec
+	Rounds  []roundSpec
+	Yield   bool
 }
 
 func (c *c28cfg) desc() string {
 	var sb strings.Builder
-	fmt.Fprintf(&sb, "kind=%s graph=%s n=%d edges=%v yield=%v subs=", c.Kind, c.G.name, c.G.n, c.G.edges, c.Yield)
+	fmt.Fprintf(&sb, "kind=%s keys=%s graph=%s n=%d edges=%v yield=%v subs=", c.Kind, c.KeyMode, c.G.name, c.G.n, c.G.edges, c.Yield)
 	for i, s := range c.Subs {
-		fmt.Fprintf(&sb, "[#%d n%d %s h%d r%d]", i, s.Node, s.Ch, s.Handlers, s.Round)
+		fmt.Fprintf(&sb, "[#%d n%d %s h%d r%d k%d]", i, s.Node, s.Ch, s.Handlers, s.Round, s.Key)
 	}
 	for i, r := range c.Rounds {
-		fmt.Fprintf(&sb, " round%d{ev=%v conc=%v pubs=", i, r.Events, r.Concurrent)
-		for _, p := range r.Pubs {
-			fmt.Fprintf(&sb, "(o%d %s d=%v)", p.Origin, p.Ch, p.Direct)
+		fmt.Fprintf(&sb, " round%d{ev=%v conc=%v", i, r.Events, r.Concurrent)
+		if len(r.Gates) > 0 {
+			fmt.Fprintf(&sb, " gates=%v qb=%v", r.Gates, r.QuiesceBetween)
+		}
+		fmt.Fprintf(&sb, " pubs(%d)=", len(r.Pubs))
+		// long bursts: the origins as a run-length list
+		if len(r.Pubs) > 12 {
+			for k := 0; k < len(r.Pubs); {
+				j := k
+				for j < len(r.Pubs) && r.Pubs[j] == r.Pubs[k] {
+					j++
+				}
+				fmt.Fprintf(&sb, "%dx(o%d %s d=%v k%d)", j-k, r.Pubs[k].Origin, r.Pubs[k].Ch, r.Pubs[k].Direct, r.Pubs[k].Key)
+				k = j
+			}
+		} else {
+			for _, p := range r.Pubs {
+				fmt.Fprintf(&sb, "(o%d %s d=%v k%d)", p.Origin, p.Ch, p.Direct, p.Key)
+			}
 		}
 		sb.WriteString("}")
 	}
 	return sb.String()
+}
+
+// assignKeys chooses the key of every subscription and direct publish:
+// "node" = the node's link identity everywhere, "foreign" = every
+// subscription / direct publish has its own identity that is not the link
+// identity of any node, "mixed" = a coin per subscription.
+func assignKeys(rng *rand.Rand, c *c28cfg, mode string) {
+	c.KeyMode = mode
+	next := 0
+	pick := func() int {
+		if mode == "node" || mode == "mixed" && rng.IntN(2) == 0 {
+			return 0
+		}
+		next++
+		return next
+	}
+	for i := range c.Subs {
+		c.Subs[i].Key = pick()
+	}
+	for ri := range c.Rounds {
+		for k := range c.Rounds[ri].Pubs {
+			if c.Rounds[ri].Pubs[k].Direct {
+				c.Rounds[ri].Pubs[k].Key = pick()
+			}
+		}
+	}
 }
 
 func randomConnected(rng *rand.Rand, n int) graph {
@@ -208,6 +278,7 @@ func genC28(rng *rand.Rand, idx int, yield bool) *c28cfg {
 			c.Rounds[ri].Pubs = append(c.Rounds[ri].Pubs, p)
 		}
 	}
+	assignKeys(rng, c, []string{"node", "node", "foreign", "mixed"}[rng.IntN(4)])
 	return c
 }
 
@@ -227,6 +298,7 @@ func genC28Burst(rng *rand.Rand, idx int, yield bool, npub int) *c28cfg {
 		c.Rounds[0].Pubs = append(c.Rounds[0].Pubs, pubSpec{Origin: rng.IntN(c.G.n), Ch: "a"})
 	}
 	c.Rounds[0].Concurrent = true
+	assignKeys(rng, c, []string{"node", "node", "foreign", "mixed"}[rng.IntN(4)])
 	return c
 }
 
@@ -250,6 +322,185 @@ func genC28Relink(rng *rand.Rand, idx int, yield bool) *c28cfg {
 	for v := 0; v < c.G.n; v++ {
 		c.Rounds[1].Pubs = append(c.Rounds[1].Pubs, pubSpec{Origin: v, Ch: "a"})
 	}
+	assignKeys(rng, c, []string{"node", "node", "foreign", "mixed"}[rng.IntN(4)])
+	return c
+}
+
+// cyclicGraphs: graphs in which a copy can travel back to the node that
+// published it.
+func cyclicGraphs(rng *rand.Rand) graph {
+	sg := smallGraphs()
+	switch rng.IntN(8) {
+	case 0:
+		return complete(3)
+	case 1:
+		return ring(4)
+	case 2:
+		return sg[6] // paw
+	case 3:
+		return sg[7] // diamond
+	case 4:
+		return complete(4)
+	case 5:
+		return ring(5 + rng.IntN(2))
+	case 6:
+		return complete(5)
+	}
+	return randomConnected(rng, 4+rng.IntN(3))
+}
+
+func relabel(rng *rand.Rand, g *graph) {
+	perm := rng.Perm(g.n)
+	for i, e := range g.edges {
+		a, b := perm[e[0]], perm[e[1]]
+		if rng.IntN(2) == 0 {
+			a, b = b, a
+		}
+		g.edges[i] = [2]int{a, b}
+	}
+}
+
+// outGate returns the gate on the direction from -> (other end) of edge ei.
+func outGate(g graph, ei, from int, mode string) gateSpec {
+	d := 0
+	if g.edges[ei][1] == from {
+		d = 1
+	}
+	return gateSpec{Edge: ei, Dir: d, Mode: mode}
+}
+
+func addGate(gs []gateSpec, g gateSpec) []gateSpec {
+	for _, h := range gs {
+		if h.Edge == g.Edge && h.Dir == g.Dir {
+			return gs
+		}
+	}
+	return append(gs, g)
+}
+
+// genC28Delay: asymmetric link delays on (mostly) cyclic graphs: some
+// directions of some edges deliver nothing until the rest of the mesh has come
+// to rest (a slow direct edge against a fast multi-hop path), then they are
+// opened one by one. Subscriptions mostly publish with a key that is not the
+// node's link identity.
+func genC28Delay(rng *rand.Rand, idx int, yield bool) *c28cfg {
+	c := &c28cfg{Idx: idx, Kind: "delay", Yield: yield, Chans: []string{"a"}}
+	c.G = cyclicGraphs(rng)
+	relabel(rng, &c.G)
+	c.Rounds = make([]roundSpec, 1)
+	rd := &c.Rounds[0]
+	subd := make([]bool, c.G.n)
+	for v := 0; v < c.G.n; v++ {
+		rd.Events = append(rd.Events, event{Kind: evExec, Node: v})
+		if rng.IntN(20) < 17 {
+			subd[v] = true
+			c.Subs = append(c.Subs, subSpec{Node: v, Ch: "a", Handlers: 1 + rng.IntN(2)})
+			if rng.IntN(8) == 0 {
+				c.Subs = append(c.Subs, subSpec{Node: v, Ch: "a", Handlers: 1})
+			}
+		}
+	}
+	for i := range c.Subs {
+		rd.Events = append(rd.Events, event{Kind: evSub, Sub: i})
+	}
+	for i := range c.G.edges {
+		rd.Events = append(rd.Events, event{Kind: evLink, Edge: i, AFirst: rng.IntN(2) == 0})
+	}
+	rng.Shuffle(len(rd.Events), func(i, j int) { rd.Events[i], rd.Events[j] = rd.Events[j], rd.Events[i] })
+	rd.Concurrent = rng.IntN(2) == 0
+	np := 1 + rng.IntN(4)
+	for k := 0; k < np; k++ {
+		o := rng.IntN(c.G.n)
+		rd.Pubs = append(rd.Pubs, pubSpec{Origin: o, Ch: "a", Direct: !subd[o] || rng.IntN(6) == 0})
+	}
+	mode := func() string {
+		if rng.IntN(4) == 0 {
+			return "stall"
+		}
+		return "hold"
+	}
+	for _, p := range rd.Pubs {
+		for ei, e := range c.G.edges {
+			if (e[0] == p.Origin || e[1] == p.Origin) && rng.IntN(2) == 0 {
+				rd.Gates = addGate(rd.Gates, outGate(c.G, ei, p.Origin, mode()))
+			}
+		}
+	}
+	for ei := range c.G.edges {
+		if rng.IntN(7) == 0 {
+			rd.Gates = addGate(rd.Gates, gateSpec{Edge: ei, Dir: rng.IntN(2), Mode: mode()})
+		}
+	}
+	if len(rd.Gates) == 0 {
+		ei := rng.IntN(len(c.G.edges))
+		rd.Gates = append(rd.Gates, gateSpec{Edge: ei, Dir: rng.IntN(2), Mode: mode()})
+	}
+	rng.Shuffle(len(rd.Gates), func(i, j int) { rd.Gates[i], rd.Gates[j] = rd.Gates[j], rd.Gates[i] })
+	rd.QuiesceBetween = rng.IntN(2) == 0
+	assignKeys(rng, c, []string{"foreign", "foreign", "foreign", "mixed", "mixed", "node"}[rng.IntN(6)])
+	return c
+}
+
+// genC28Stall: back-pressure: the streams towards some peers stop draining
+// (their writes block) while a burst of lo..hi messages is published, so the
+// per-peer send queues of the senders run full; then the streams are released.
+func genC28Stall(rng *rand.Rand, idx int, yield bool, lo, hi int) *c28cfg {
+	c := &c28cfg{Idx: idx, Kind: "stall", Yield: yield, Chans: []string{"a"}}
+	sg := smallGraphs()
+	gs := []graph{line(2), line(3), line(4), star(4), ring(4), sg[6], complete(3), star(5), sg[7], line(5)}
+	c.G = gs[rng.IntN(len(gs))]
+	c.G.edges = append([][2]int(nil), c.G.edges...)
+	relabel(rng, &c.G)
+	c.Rounds = make([]roundSpec, 1)
+	rd := &c.Rounds[0]
+	for v := 0; v < c.G.n; v++ {
+		c.Subs = append(c.Subs, subSpec{Node: v, Ch: "a", Handlers: 1})
+		rd.Events = append(rd.Events, event{Kind: evExec, Node: v}, event{Kind: evSub, Sub: v})
+	}
+	for i := range c.G.edges {
+		rd.Events = append(rd.Events, event{Kind: evLink, Edge: i, AFirst: rng.IntN(2) == 0})
+	}
+	rng.Shuffle(len(rd.Events), func(i, j int) { rd.Events[i], rd.Events[j] = rd.Events[j], rd.Events[i] })
+	np := lo + rng.IntN(hi-lo+1)
+	single := rng.IntN(2) == 0
+	o := rng.IntN(c.G.n)
+	for k := 0; k < np; k++ {
+		if !single {
+			o = rng.IntN(c.G.n)
+		}
+		rd.Pubs = append(rd.Pubs, pubSpec{Origin: o, Ch: "a", Direct: rng.IntN(10) == 0})
+	}
+	rd.Concurrent = rng.IntN(2) == 0
+	switch rng.IntN(3) {
+	case 0: // one direction of one edge
+		ei := rng.IntN(len(c.G.edges))
+		rd.Gates = append(rd.Gates, gateSpec{Edge: ei, Dir: rng.IntN(2), Mode: "stall"})
+	case 1: // every stream into one victim node
+		v := rng.IntN(c.G.n)
+		for ei, e := range c.G.edges {
+			if e[0] == v {
+				rd.Gates = append(rd.Gates, outGate(c.G, ei, e[1], "stall"))
+			} else if e[1] == v {
+				rd.Gates = append(rd.Gates, outGate(c.G, ei, e[0], "stall"))
+			}
+		}
+	default: // a PRNG subset of all directions
+		for ei := range c.G.edges {
+			for d := 0; d < 2; d++ {
+				if rng.IntN(3) == 0 {
+					rd.Gates = append(rd.Gates, gateSpec{Edge: ei, Dir: d, Mode: "stall"})
+				}
+			}
+		}
+		if len(rd.Gates) == 0 {
+			rd.Gates = append(rd.Gates, gateSpec{Edge: rng.IntN(len(c.G.edges)), Dir: rng.IntN(2), Mode: "stall"})
+		}
+	}
+	if rng.IntN(4) == 0 { // and a slow link somewhere
+		rd.Gates = addGate(rd.Gates, gateSpec{Edge: rng.IntN(len(c.G.edges)), Dir: rng.IntN(2), Mode: "hold"})
+	}
+	rng.Shuffle(len(rd.Gates), func(i, j int) { rd.Gates[i], rd.Gates[j] = rd.Gates[j], rd.Gates[i] })
+	assignKeys(rng, c, []string{"node", "node", "foreign", "mixed"}[rng.IntN(4)])
 	return c
 }
 
@@ -275,6 +526,24 @@ type c28run struct {
 	nh   int
 	hch  map[int]string // handler id -> channel
 	hnd  map[int]int    // handler id -> node
+	// foreign identities: disjoint from the link identities of the mesh
+	foreign []*keys.Identity
+}
+
+// ident resolves a key index of a spec (0 = the node's link identity).
+func (x *c28run) ident(node, key int) *keys.Identity {
+	if key == 0 {
+		return x.m.Nodes[node].Ident
+	}
+	return x.foreign[(key-1)%len(x.foreign)]
+}
+
+func (x *c28run) pipe(g gateSpec) *g9mesh.Pipe {
+	d := x.dup[x.c.G.edges[g.Edge]]
+	if g.Dir == 0 {
+		return d.AB
+	}
+	return d.BA
 }
 
 func (x *c28run) witness(extra map[string]any) map[string]any {
@@ -306,7 +575,7 @@ func (x *c28run) apply(e event) bool {
 	case evSub:
 		sp := x.c.Subs[e.Sub]
 		n := x.m.Nodes[sp.Node]
-		h, err := n.FS.AddSubscription(x.m.Ctx, n.Ident.Priv, sp.Ch)
+		h, err := n.FS.AddSubscription(x.m.Ctx, x.ident(sp.Node, sp.Key).Priv, sp.Ch)
 		if err != nil {
 			x.r.Inconclusive("AddSubscription failed: " + err.Error())
 			return false
@@ -397,6 +666,13 @@ func (x *c28run) wireIndex() map[string][]wireEv {
 type pubRec struct {
 	spec    pubSpec
 	payload string
+	// from is the peer id of the key that signs the message (ground truth).
+	from string
+	// nodeKey: the signing key is the publishing node's link identity, i.e.
+	// the original publisher is a peer the neighbours can recognise.
+	nodeKey bool
+	via     pubsub.Subscription
+	priv    crypto.PrivKey
 }
 
 // checkRound judges the publishes of one round at quiescence. exact says
@@ -418,14 +694,14 @@ func (x *c28run) checkRound(pubs []pubRec, exact bool) (nontrivial bool) {
 	allThere := true
 	for _, p := range pubs {
 		R := refFloodReach(adj, x.subscribed(p.spec.Ch), p.spec.Origin)
-		oid := x.m.Nodes[p.spec.Origin].Ident.ID.String()
+		oid := p.from
 		// (1) handler callbacks
 		for _, d := range bypay[p.payload] {
 			if d.Channel != p.spec.Ch {
 				x.r.Violation("floodsub/wrong-channel-delivery", fmt.Sprintf("message %q published on %q was handed to a handler of channel %q on node %d", p.payload, p.spec.Ch, d.Channel, d.Node), x.witness(nil))
 			}
 			if d.From != oid {
-				x.r.Violation("floodsub/wrong-from", fmt.Sprintf("message %q from node %d reported sender %s", p.payload, p.spec.Origin, d.From), x.witness(nil))
+				x.r.Violation("floodsub/wrong-from", fmt.Sprintf("message %q published on node %d with the key of %s reported sender %s", p.payload, p.spec.Origin, oid, d.From), x.witness(nil))
 			}
 		}
 		reached := 0
@@ -470,7 +746,14 @@ func (x *c28run) checkRound(pubs []pubRec, exact bool) (nontrivial bool) {
 		for _, e := range evs {
 			perEdge[[2]int{e.From, e.To}]++
 			x.r.Count("wire_message_copies", 1)
-			if e.To == p.spec.Origin {
+			if e.To == p.spec.Origin && !p.nodeKey {
+				// the message is signed by a key that is no peer of the
+				// mesh: its "original publisher" is not a peer anybody has a
+				// link to, so nothing is demanded about copies that reach
+				// the publishing node (which must still de-duplicate them).
+				x.r.Count("wire_copies_into_publishing_node_foreign_key", 1)
+			}
+			if e.To == p.spec.Origin && p.nodeKey {
 				x.r.Violation("floodsub/echo-to-origin",
 					fmt.Sprintf("node %d sent message %q back to its original publisher %d", e.From, p.payload, e.To),
 					x.witness(map[string]any{"wire": evs}))
@@ -500,35 +783,49 @@ func (x *c28run) checkRound(pubs []pubRec, exact bool) (nontrivial bool) {
 	return nontrivial && (allThere || !exact)
 }
 
-func (x *c28run) publish(ri int, rs roundSpec, relinkDuring bool) []pubRec {
-	recs := make([]pubRec, len(rs.Pubs))
-	var wg sync.WaitGroup
-	one := func(k int) {
-		p := rs.Pubs[k]
-		n := x.m.Nodes[p.Origin]
-		data := []byte(recs[k].payload)
-		var err error
-		var via pubsub.Subscription
+// publish issues the publishes of a round. With gates: the gates are closed
+// first, the publishes run in their own goroutines (they may block under
+// back-pressure), the harness waits until the mesh has come to rest against
+// the closed gates - either exactly quiescent with every publish call
+// returned, or a router parked on a full send queue - and then opens the
+// gates. ok=false: a watchdog expired (inconclusive).
+func (x *c28run) publish(ri int, rs roundSpec, relinkDuring bool) (recs []pubRec, ok bool) {
+	recs = make([]pubRec, len(rs.Pubs))
+	for k, p := range rs.Pubs {
+		rc := pubRec{spec: p, payload: fmt.Sprintf("c%d/r%d/p%d/o%d/%s", x.c.Idx, ri, k, p.Origin, p.Ch)}
+		id := x.ident(p.Origin, p.Key)
 		if !p.Direct {
 			for _, st := range x.subs {
 				if st.spec.Node == p.Origin && st.spec.Ch == p.Ch {
-					via = st.h
+					rc.via = st.h
+					id = x.ident(st.spec.Node, st.spec.Key)
 					break
 				}
 			}
 		}
-		if via != nil {
-			err = via.Publish(data)
+		rc.priv = id.Priv
+		rc.from = id.ID.String()
+		rc.nodeKey = id == x.m.Nodes[p.Origin].Ident
+		if rc.nodeKey {
+			x.r.Count("publishes_signed_with_node_key", 1)
 		} else {
-			err = n.FS.(g9mesh.Publisher).Publish(x.m.Ctx, p.Ch, n.Ident.Priv, data)
+			x.r.Count("publishes_signed_with_foreign_key", 1)
+		}
+		recs[k] = rc
+	}
+	var wg sync.WaitGroup
+	one := func(k int) {
+		rc := &recs[k]
+		var err error
+		if rc.via != nil {
+			err = rc.via.Publish([]byte(rc.payload))
+		} else {
+			err = x.m.Nodes[rc.spec.Origin].FS.(g9mesh.Publisher).Publish(x.m.Ctx, rc.spec.Ch, rc.priv, []byte(rc.payload))
 		}
 		if err != nil {
 			x.r.Inconclusive("publish failed: " + err.Error())
 		}
 		x.r.Count("publishes", 1)
-	}
-	for k, p := range rs.Pubs {
-		recs[k] = pubRec{spec: p, payload: fmt.Sprintf("c%d/r%d/p%d/o%d/%s", x.c.Idx, ri, k, p.Origin, p.Ch)}
 	}
 	if relinkDuring {
 		ed := x.c.G.edges[0]
@@ -543,19 +840,106 @@ func (x *c28run) publish(ri int, rs roundSpec, relinkDuring bool) []pubRec {
 			x.r.Count("stream_replacements", 1)
 		})
 	}
-	if rs.Concurrent {
+	for _, g := range rs.Gates {
+		if g.Mode == "hold" {
+			x.pipe(g).HoldReads(true)
+		} else {
+			x.pipe(g).StallWrites(true)
+		}
+		x.r.Count("gates_closed_"+g.Mode, 1)
+	}
+	gated := len(rs.Gates) > 0
+	switch {
+	case rs.Concurrent:
 		for k := range rs.Pubs {
 			k := k
 			wg.Add(1)
 			x.m.Go(func() { defer wg.Done(); one(k) })
 		}
-	} else {
+	case gated: // in order, but off the harness goroutine: a publish may block
+		wg.Add(1)
+		x.m.Go(func() {
+			defer wg.Done()
+			for k := range rs.Pubs {
+				one(k)
+			}
+		})
+	default:
 		for k := range rs.Pubs {
 			one(k)
 		}
 	}
-	wg.Wait()
-	return recs
+	if !gated {
+		wg.Wait()
+		return recs, true
+	}
+	done := make(chan struct{})
+	go func() { wg.Wait(); close(done) }()
+	isDone := func() bool {
+		select {
+		case <-done:
+			return true
+		default:
+			return false
+		}
+	}
+	// wait until the mesh rests against the closed gates
+	deadline := time.Now().Add(watchdog)
+	rest := ""
+	for rest == "" {
+		if bp, _ := x.m.Backpressured(); bp {
+			rest = "backpressure"
+		} else if isDone() {
+			if q, _ := x.m.QuiescentNow(); q {
+				rest = "quiescent"
+			}
+		}
+		if rest == "" {
+			if time.Now().After(deadline) {
+				x.r.Inconclusive(fmt.Sprintf("C28 case %d: mesh did not come to rest against the closed gates within the watchdog", x.c.Idx))
+				for _, g := range rs.Gates {
+					x.pipe(g).HoldReads(false)
+					x.pipe(g).StallWrites(false)
+				}
+				return recs, false
+			}
+			time.Sleep(2 * time.Millisecond)
+		}
+	}
+	x.r.Count("gated_rounds_rest_"+rest, 1)
+	for _, g := range rs.Gates {
+		p := x.pipe(g)
+		if g.Mode == "hold" {
+			x.r.Count("held_copies_in_flight_at_release", p.Pending())
+		} else if p.WritersBlocked() > 0 {
+			x.r.Count("stalled_streams_with_blocked_writer", 1)
+		}
+	}
+	for _, g := range rs.Gates {
+		if g.Mode == "hold" {
+			x.pipe(g).HoldReads(false)
+		} else {
+			x.pipe(g).StallWrites(false)
+		}
+		if rs.QuiesceBetween && rest == "quiescent" {
+			if !x.quiesce("between gate releases") {
+				for _, h := range rs.Gates {
+					x.pipe(h).HoldReads(false)
+					x.pipe(h).StallWrites(false)
+				}
+				return recs, false
+			}
+		} else {
+			runtime.Gosched()
+		}
+	}
+	select {
+	case <-done:
+	case <-time.After(watchdog):
+		x.r.Inconclusive(fmt.Sprintf("C28 case %d: publish calls did not return after the gates were opened (watchdog)", x.c.Idx))
+		return recs, false
+	}
+	return recs, true
 }
 
 func runC28(r *vf.Run, env *g9mesh.Env, pool []*keys.Identity, c *c28cfg, jr *journal) {
@@ -563,8 +947,13 @@ func runC28(r *vf.Run, env *g9mesh.Env, pool []*keys.Identity, c *c28cfg, jr *jo
 	defer jr.end(c.Idx)
 	rng := rand.New(rand.NewPCG(uint64(c.Idx), r.Seed()))
 	ids := make([]*keys.Identity, c.G.n)
-	for i, k := range rng.Perm(len(pool))[:c.G.n] {
-		ids[i] = pool[k]
+	var foreign []*keys.Identity
+	for i, k := range rng.Perm(len(pool)) {
+		if i < c.G.n {
+			ids[i] = pool[k]
+		} else {
+			foreign = append(foreign, pool[k])
+		}
 	}
 	m, err := g9mesh.NewMesh(env, ids)
 	if err != nil {
@@ -573,7 +962,7 @@ func runC28(r *vf.Run, env *g9mesh.Env, pool []*keys.Identity, c *c28cfg, jr *jo
 	}
 	defer m.Close()
 	m.Adopt()
-	x := &c28run{r: r, c: c, m: m, dup: map[[2]int]*g9mesh.Duplex{}, uuid: map[[2]int]uint64{}, hch: map[int]string{}, hnd: map[int]int{}}
+	x := &c28run{r: r, c: c, m: m, dup: map[[2]int]*g9mesh.Duplex{}, uuid: map[[2]int]uint64{}, hch: map[int]string{}, hnd: map[int]int{}, foreign: foreign}
 	nontrivial := false
 	for ri, rs := range c.Rounds {
 		for _, e := range rs.Events {
@@ -591,7 +980,11 @@ func runC28(r *vf.Run, env *g9mesh.Env, pool []*keys.Identity, c *c28cfg, jr *jo
 			return
 		}
 		relink := c.Kind == "relink" && ri == 0
-		recs := x.publish(ri, rs, relink)
+		recs, pok := x.publish(ri, rs, relink)
+		if !pok {
+			r.Case(c.desc(), false)
+			return
+		}
 		if !x.quiesce(fmt.Sprintf("publishes of round %d", ri)) {
 			r.Case(c.desc(), false)
 			return
@@ -629,8 +1022,10 @@ func runC28(r *vf.Run, env *g9mesh.Env, pool []*keys.Identity, c *c28cfg, jr *jo
 func TestC28(t *testing.T) {
 	r := vf.Start(t, "C28", vf.Exploration)
 	defer r.Finish()
-	r.SetRule("configuration = (connected graph: all 9 connected graphs on 2-4 nodes, line/star/ring/complete/PRNG graphs on 5-6 nodes; PRNG node relabelling) x (PRNG subscriber subsets on 1-2 channels, 1-2 handlers, sometimes 2 subscriptions per node/channel) x (PRNG order of Execute start / AddSubscription / AddPeerStream events with quiescence barriers; optionally a second round of late subscriptions and links) x (1-5 publishes per round from PRNG origins, via the subscription or FloodSub.Publish, sequential or concurrent); plus burst configurations (dense graphs, 40+ concurrent publishes) and stream-replacement configurations (the stream of an existing (peer, link) tuple is replaced during a burst). Half of the run has a scheduler yield installed at floodsub.seen.gap. Non-trivial = at least one message was observed exactly once at a handler on a node other than its origin and every demanded delivery was present at exact quiescence (pipes empty, readers parked, all floodsub goroutines of the mesh parked at their idle selects). Oracle = refFloodReach reference model: exactly-once per handler on reachable subscribers, zero elsewhere, no copy on an edge into the origin, every forwarded copy preceded (tap clock) by a reception from another peer.")
-	r.Assume("reachable = reachable through peers subscribed to the channel (DESIGN 8); node identity key = publishing key, so the original publisher is identifiable by peers")
+	r.SetRule("configuration = (connected graph: all 9 connected graphs on 2-4 nodes, line/star/ring/complete/PRNG graphs on 5-6 nodes; PRNG node relabelling) x (PRNG subscriber subsets on 1-2 channels, 1-2 handlers, sometimes 2 subscriptions per node/channel) x (PRNG order of Execute start / AddSubscription / AddPeerStream events with quiescence barriers; optionally a second round of late subscriptions and links) x (1-5 publishes per round from PRNG origins, via the subscription or FloodSub.Publish, sequential or concurrent); plus burst configurations (dense graphs, 40+ concurrent publishes), stream-replacement configurations (the stream of an existing (peer, link) tuple is replaced during a burst), delay configurations (mostly cyclic graphs; PRNG directions of edges - preferably out of the publishing nodes - hold back their copies (reads held) or stall until the rest of the mesh is exactly quiescent, then are opened one by one) and back-pressure configurations (trees / small cyclic graphs; the streams on one direction of an edge, on all edges into a victim node or on a PRNG set of directions stop draining (writes block) while 40-200 messages are published sequentially or concurrently from one or from PRNG origins; released when a router is parked on a full send queue or everything is exactly quiescent). Every subscription / direct publish signs with the node's link identity or with a foreign identity (key mode node / foreign / mixed per configuration). Half of the run has a scheduler yield installed at floodsub.seen.gap. Non-trivial = at least one message was observed exactly once at a handler on a node other than its origin and every demanded delivery was present at exact quiescence (pipes empty, readers parked, all floodsub goroutines of the mesh parked at their idle selects). Oracle = refFloodReach reference model: exactly-once per handler on reachable subscribers, zero elsewhere, no copy on an edge into the origin, every forwarded copy preceded (tap clock) by a reception from another peer.")
+	r.Assume("reachable = reachable through peers subscribed to the channel (DESIGN 8)")
+	r.Assume("the original publisher of a message is the peer whose key signed it (from_peer_id). Subscriptions / publishes use the node's link identity or a foreign key (an identity that is not the link identity of any node of the mesh). With the node key, no copy may appear on any edge into the publishing node. With a foreign key the original publisher is not a peer anybody holds a link to, so copies on edges into the publishing node are only counted; exactly-once hand-over to every local subscription (including those of the publishing node), delivery to every reachable subscriber and the previous-hop rule for every forwarding node are demanded unchanged. Publishing with the link identity of ANOTHER node of the mesh is not exercised")
+	r.Assume("closed gates (held reads = a slow link, stalled writes = a stream that does not drain) are opened when the mesh rests against them, decided from goroutine states (exact quiescence with all publish calls returned, or a router parked on a full per-peer send queue), never from elapsed time; once all gates are open and the mesh is exactly quiescent delivery must be exact")
 	r.Assume("publishes raced with a stream replacement need not be delivered (only no duplicate / echo / crash); after re-quiescence delivery is exact again")
 	env, err := getEnv()
 	if err != nil {
@@ -638,11 +1033,14 @@ func TestC28(t *testing.T) {
 	}
 	setWatchdog(r)
 	rng := r.Rand("c28")
-	pool := keys.Pool(r.Rand("c28-keys"), 24)
+	pool := keys.Pool(r.Rand("c28-keys"), 48)
 	nMesh := r.N(112, 1200)
 	nBurst := r.N(12, 80)
 	nRelink := r.N(12, 60)
 	burstPubs := r.N(48, 120)
+	nDelay := r.N(40, 600)
+	nStall := r.N(16, 160)
+	stallHi := r.N(160, 200)
 	var phases [2][]*c28cfg
 	idx := 0
 	for ph := 0; ph < 2; ph++ {
@@ -657,6 +1055,28 @@ func TestC28(t *testing.T) {
 		for i := 0; i < nRelink/2; i++ {
 			phases[ph] = append(phases[ph], genC28Relink(rng, idx, ph == 1))
 			idx++
+		}
+		for i := 0; i < nDelay/2; i++ {
+			phases[ph] = append(phases[ph], genC28Delay(rng, idx, ph == 1))
+			idx++
+		}
+		for i := 0; i < nStall/2; i++ {
+			phases[ph] = append(phases[ph], genC28Stall(rng, idx, ph == 1, 40, stallHi))
+			idx++
+		}
+	}
+	// debugging aid: VERIF_C28_KINDS=delay,stall restricts the run to some
+	// kinds of configurations (the case list itself is not changed).
+	if only := os.Getenv("VERIF_C28_KINDS"); only != "" {
+		r.Extra("restricted_to_kinds", only)
+		for ph := range phases {
+			var keep []*c28cfg
+			for _, c := range phases[ph] {
+				if strings.Contains(","+only+",", ","+c.Kind+",") {
+					keep = append(keep, c)
+				}
+			}
+			phases[ph] = keep
 		}
 	}
 	jr := newJournal(r)
